@@ -1,9 +1,13 @@
+mod alloc;
 mod hw;
 mod mon;
 mod sup;
 mod util;
 
 use sup::*;
+
+#[global_allocator]
+static GLOBAL: alloc::Counting = alloc::Counting;
 
 fn usage() -> ! {
     eprintln!("usage: axmon check <Cxx> <quick|thorough> | worker ... | replay <Cxx> <file> | census-write | hw-selftest");
